@@ -125,7 +125,10 @@ def recv_msg(sock: socket.socket) -> Tuple[bytes, bytes, bytes]:
     """
     msg = b""
     while len(msg) != MSG_HEADER_LEN:
-        msg += sock.recv(MSG_HEADER_LEN - len(msg))
+        data = sock.recv(MSG_HEADER_LEN - len(msg))
+        if not data:
+            raise ConnectionError("connection closed by peer")
+        msg += data
 
     start_bytes = msg[:4]
     command = msg[4:16].rstrip(b"\x00")
@@ -134,7 +137,10 @@ def recv_msg(sock: socket.socket) -> Tuple[bytes, bytes, bytes]:
     payload = msg[24:]
     if payload_size:
         while len(payload) != payload_size:
-            payload += sock.recv(payload_size - len(payload))
+            data = sock.recv(payload_size - len(payload))
+            if not data:
+                raise ConnectionError("connection closed by peer")
+            payload += data
 
     # sanity checks
     if len(payload) != payload_size:
